@@ -1,6 +1,5 @@
-(* C07  Byte counting equals the number of matching bytes (one-shot part; the
-   iterator part C07_iter_count is in the iterator development). *)
-From Memchr Require Import Spec Params Vec.MaskLaws Mem.Wrappers Mem.GenericProofs Mem.WrappersProofs.
+(* C07  Byte counting equals the number of matching bytes. *)
+From Memchr Require Import Spec Params Vec.MaskLaws Mem.Wrappers Mem.GenericProofs Mem.WrappersProofs Mem.Iter Mem.IterProofs.
 
 Definition bytes_ok (l : list N) : Prop := Forall (fun x => (x < 256)%N) l.
 
@@ -28,6 +27,20 @@ Qed.
 Theorem C07_spec : forall (p : N -> bool) h, count_p p h = length (filter p h).
 Proof. intros p h. induction h as [|x h IH]; cbn; [reflexivity|]. destruct (p x); cbn; lia. Qed.
 
+(* count() on an iterator in any reachable, partially consumed state returns the
+   number of matches not yet yielded (the length of the remaining queue) *)
+Theorem C07_iter_count : forall (b : backend) n a h it,
+  bytes_ok h -> bytes_ok [n] -> inv h it ->
+  fst (iter_count b [n] a h it) = Ok (length (absw [n] h it)) /\
+  loads_ok a (length h) 0 0 (snd (iter_count b [n] a h it)).
+Proof.
+  intros b n a h it Hh Hn Hi.
+  destruct (satq_fst _ _ _ (iter_count_sat b [n] a h ltac:(discriminate) it Hi eq_refl)) as (v & Hv & -> & Ht).
+  split; assumption.
+Qed.
+
+(* ... and every state a history of next/next_back calls reaches satisfies inv: C06_step, C06_step_back *)
+
 Example C07_example :
   fst (backend_count [97]%N 5 (repeat 97%N 100) BAvx2) = Ok 100 /\
   fst (backend_count [97]%N 5 (repeat 97%N 100) BNeon) = Ok 100.
@@ -36,3 +49,4 @@ Proof. vm_compute. split; reflexivity. Qed.
 Print Assumptions C07_generic.
 Print Assumptions C07_backend.
 Print Assumptions C07_spec.
+Print Assumptions C07_iter_count.
